@@ -14,6 +14,7 @@ decorators other than staticmethod, with *args/**kwargs, generators, returns ins
 helpers, calls with starred arguments.
 """
 import ast
+import re
 import copy
 import json
 import os
@@ -162,6 +163,33 @@ class _Inliner(object):
                     if isinstance(sub, ast.FunctionDef) and ("%s.%s" % (st.name, sub.name)) not in known:
                         self._add((st.name, sub.name), sub)
         self._add_nested(tree)
+        self._drop_recursive()
+
+    def _drop_recursive(self):
+        """helpers that (directly or through other helpers) refer to themselves are left as calls"""
+        refs = {}
+        for key, fn in self.helpers.items():
+            plain, attrs = set(), set()
+            for n in ast.walk(fn):
+                if isinstance(n, ast.Name):
+                    plain.add(n.id)
+                elif isinstance(n, ast.Attribute) and isinstance(n.value, ast.Name):
+                    attrs.add((n.value.id, n.attr))        # (`super().m()` / `other.m()` are not calls of the helper m)
+            refs[key] = set(k2 for k2 in self.helpers if (k2[0] == "" and k2[1] in plain) or
+                            (k2[0] != "" and ((("self", k2[1]) in attrs) or ((k2[0], k2[1]) in attrs) or (("cls", k2[1]) in attrs))))
+        for key in list(self.helpers):
+            seen, todo = set(), list(refs.get(key, ()))
+            while todo:
+                k = todo.pop()
+                if k in seen:
+                    continue
+                seen.add(k)
+                todo.extend(refs.get(k, ()))
+            if key in seen:
+                del self.helpers[key]
+                self.static.discard(key)
+                if key in getattr(self, "nested", {}):
+                    del self.nested[key]
 
     def _add_nested(self, tree):
         """a function defined directly in the body of another one and only called there (a local closure used as a helper)"""
@@ -192,7 +220,9 @@ class _Inliner(object):
         if any(d not in ("staticmethod",) for d in decos):
             return
         a = fn.args
-        if a.vararg or a.kwarg or a.kwonlyargs or a.posonlyargs or _has_yield(fn):
+        if a.vararg or a.kwonlyargs or a.posonlyargs or _has_yield(fn):
+            return
+        if a.kwarg and not _kwarg_only_spread(fn):
             return
         if fn.name.startswith("__") and fn.name.endswith("__"):
             return
@@ -212,8 +242,11 @@ class _Inliner(object):
                 return (cls, f.attr), False
         return None, False
 
-    def _bind(self, key, call, takes_self):
+    def _bind(self, key, call, takes_self, allow_kw=False):
         fn = self.helpers[key]
+        self._extra_kw = []
+        if fn.args.kwarg and not allow_kw:
+            raise _Unsupported("**kwargs helper in this position")
         params = [a.arg for a in fn.args.args]
         defaults = [None] * (len(params) - len(fn.args.defaults)) + list(fn.args.defaults)
         if takes_self:
@@ -226,6 +259,12 @@ class _Inliner(object):
                 raise _Unsupported("arity")
             bound[params[i]] = a
         for k in call.keywords:
+            if k.arg not in params and fn.args.kwarg and k.arg not in bound:
+                # collected by the helper's **kwargs, which it only spreads into calls: the keyword goes there
+                if not _simple(k.value):
+                    raise _Unsupported("keyword value")
+                self._extra_kw.append(k)
+                continue
             if k.arg not in params or k.arg in bound:
                 raise _Unsupported("keyword")
             bound[k.arg] = k.value
@@ -238,7 +277,8 @@ class _Inliner(object):
 
     def _expand(self, key, call, takes_self, mk, keep_returns=False):
         """-> list of statements standing for the helper body, with returns converted by mk"""
-        fn, params, bound = self._bind(key, call, takes_self)
+        fn, params, bound = self._bind(key, call, takes_self, allow_kw=True)
+        extra_kw = list(self._extra_kw)
         self.counter += 1
         tag = "_h%d_" % self.counter
         body = list(fn.body)
@@ -267,6 +307,8 @@ class _Inliner(object):
             if nme not in renames:
                 renames[nme] = tag + nme
         body = [_Subst(mapping, renames).visit(copy.deepcopy(st)) for st in body]
+        if fn.args.kwarg:
+            body = [_SpreadKw(fn.args.kwarg.arg, extra_kw).visit(st) for st in body]
         if keep_returns:
             conv = body
             if not (conv and isinstance(conv[-1], (ast.Return, ast.Raise))):
@@ -522,6 +564,41 @@ class _Replace(ast.NodeTransformer):
         return node
 
 
+def _kwarg_only_spread(fn):
+    """the helper's **kw parameter is only handed on as `**kw` in calls (never read, stored or rebound)"""
+    kw = fn.args.kwarg.arg
+    spreads = set()
+    for n in ast.walk(fn):
+        if isinstance(n, ast.Call):
+            for k in n.keywords:
+                if k.arg is None and isinstance(k.value, ast.Name) and k.value.id == kw:
+                    spreads.add(id(k.value))
+    for n in ast.walk(fn):
+        if isinstance(n, ast.Name) and n.id == kw and id(n) not in spreads:
+            return False
+        if isinstance(n, (ast.FunctionDef, ast.Lambda)) and n is not fn:
+            return False
+    return True
+
+
+class _SpreadKw(ast.NodeTransformer):
+    """`f(..., **kw)` -> `f(..., k1=v1, ...)` with the keywords the call site gave"""
+
+    def __init__(self, kw, extra):
+        self.kw, self.extra = kw, extra
+
+    def visit_Call(self, node):
+        self.generic_visit(node)
+        out = []
+        for k in node.keywords:
+            if k.arg is None and isinstance(k.value, ast.Name) and k.value.id == self.kw:
+                out.extend(ast.keyword(arg=x.arg, value=copy.deepcopy(x.value)) for x in self.extra)
+            else:
+                out.append(k)
+        node.keywords = out
+        return node
+
+
 # ---------------------------------------------------------------------------
 # selected callables:  `if c: f, a = F1, (x, y)  else: f, a = F2, (x, y, z)`  ...  `f(*a)`
 # ---------------------------------------------------------------------------
@@ -547,12 +624,32 @@ class _SelSubst(ast.NodeTransformer):
             return copy.deepcopy(self.mapping[node.id])
         return node
 
+    def _tuple_slice(self, e):
+        """`t[k:]` / `t[:k]` / `t[j:k]` of a selected tuple display -> the elements"""
+        if isinstance(e, ast.Subscript) and isinstance(e.value, ast.Name) and e.value.id in self.mapping and \
+                isinstance(self.mapping[e.value.id], ast.Tuple) and isinstance(e.slice, ast.Slice) and e.slice.step is None:
+            lo, hi = e.slice.lower, e.slice.upper
+            if all(x is None or (isinstance(x, ast.Constant) and isinstance(x.value, int) and not isinstance(x.value, bool)) for x in (lo, hi)):
+                return self.mapping[e.value.id].elts[(lo.value if lo else None):(hi.value if hi else None)]
+        return None
+
+    def visit_Subscript(self, node):
+        if isinstance(node.value, ast.Name) and node.value.id in self.mapping and isinstance(self.mapping[node.value.id], ast.Tuple) and \
+                isinstance(node.slice, ast.Constant) and isinstance(node.slice.value, int) and not isinstance(node.slice.value, bool):
+            elts = self.mapping[node.value.id].elts
+            if -len(elts) <= node.slice.value < len(elts):
+                return copy.deepcopy(elts[node.slice.value])
+        self.generic_visit(node)
+        return node
+
     def visit_Call(self, node):
         args = []
         for a in node.args:
             if isinstance(a, ast.Starred) and isinstance(a.value, ast.Name) and a.value.id in self.mapping and \
                     isinstance(self.mapping[a.value.id], ast.Tuple):
                 args.extend(copy.deepcopy(x) for x in self.mapping[a.value.id].elts)
+            elif isinstance(a, ast.Starred) and self._tuple_slice(a.value) is not None:
+                args.extend(copy.deepcopy(x) for x in self._tuple_slice(a.value))
             else:
                 args.append(self.visit(a))
         node.args = args
@@ -583,6 +680,12 @@ def _selection(st):
         if a.targets[0].id == b.targets[0].id and plain(a.value) and plain(b.value) and \
                 isinstance(a.value, (ast.Name, ast.Attribute)) and isinstance(b.value, (ast.Name, ast.Attribute)):
             return [a.targets[0].id], [a.value], [b.value]
+        # one selected (callable, arguments...) display: `if c: t = (F1, x, y)` / `else: t = (F2, x, y, z)`
+        if a.targets[0].id == b.targets[0].id and isinstance(a.value, ast.Tuple) and isinstance(b.value, ast.Tuple) and plain(a.value) and plain(b.value) \
+                and a.value.elts and b.value.elts:
+            used = set(n.id for x in (a, b) for n in ast.walk(x.value) if isinstance(n, ast.Name))
+            if a.targets[0].id not in used:
+                return [a.targets[0].id], [a.value], [b.value]
         return None
     for x in (a, b):
         if not (isinstance(x, ast.Assign) and len(x.targets) == 1 and isinstance(x.targets[0], ast.Tuple) and
@@ -604,6 +707,22 @@ def _uses_selected_call(st, names):
                 return True
             if any(isinstance(a, ast.Starred) and isinstance(a.value, ast.Name) and a.value.id in names for a in n.args):
                 return True
+            if isinstance(n.func, ast.Subscript) and isinstance(n.func.value, ast.Name) and n.func.value.id in names and \
+                    isinstance(n.func.slice, ast.Constant):
+                return True
+    return False
+
+
+def _is_bool_expr(e):
+    """an expression whose value is already True / False (identity tests and their negations / conjunctions)"""
+    if isinstance(e, ast.Compare):
+        return all(isinstance(o, (ast.Is, ast.IsNot)) for o in e.ops)
+    if isinstance(e, ast.UnaryOp) and isinstance(e.op, ast.Not):
+        return _is_bool_expr(e.operand)
+    if isinstance(e, ast.BoolOp):
+        return all(_is_bool_expr(v) for v in e.values)
+    if isinstance(e, ast.Constant):
+        return isinstance(e.value, bool)
     return False
 
 
@@ -624,12 +743,14 @@ def _deselect_block(body, fn_node, counter):
             stored_later = _names_stored(rest)
             stored_all = [n for n in ast.walk(fn_node) if isinstance(n, ast.Name) and isinstance(n.ctx, ast.Store) and n.id in names]
             users = [k for k, r in enumerate(rest) if _uses_selected_call(r, names)]
-            # sound only if the selected names are bound nowhere else and nothing they are built from is rebound afterwards
-            if users and len(stored_all) == 2 * len(names) and not (free & stored_later) and not (set(names) & stored_later):
+            # sound when neither the selected names nor anything they are built from is rebound in the rest of the block (the
+            # selection always runs right before it); the names may be selected again elsewhere in the function
+            if users and len(stored_all) % (2 * len(names)) == 0 and not (free & stored_later) and not (set(names) & stored_later):
                 counter[0] += 1
                 flag = "_sel%d" % counter[0]
                 assign = ast.Assign(targets=[ast.Name(id=flag, ctx=ast.Store())],
-                                    value=ast.Call(func=ast.Name(id="bool", ctx=ast.Load()), args=[st.test], keywords=[]))
+                                    value=st.test if _is_bool_expr(st.test) else
+                                    ast.Call(func=ast.Name(id="bool", ctx=ast.Load()), args=[st.test], keywords=[]))
                 ast.copy_location(assign, st)
                 st.test = ast.Name(id=flag, ctx=ast.Load())
                 ast.copy_location(st.test, st)
@@ -1084,6 +1205,183 @@ def _sink_flags(fn):
     return done
 
 
+_TAGGED = re.compile(r"^_h\d+_(.+)$")
+
+
+def _untag_locals(fn):
+    """locals of an expanded helper carry a `_hN_` prefix; where the helper's own name for the local is free in the host
+    function (no parameter, local, global or attribute-less name of that spelling, no second expansion claiming it) the prefix is
+    dropped, so that a block moved into a helper and back reads as it did"""
+    names = {}
+    plain = set(a.arg for a in fn.args.args + fn.args.kwonlyargs)
+    if fn.args.vararg:
+        plain.add(fn.args.vararg.arg)
+    if fn.args.kwarg:
+        plain.add(fn.args.kwarg.arg)
+    for n in ast.walk(fn):
+        if isinstance(n, ast.Name):
+            m = _TAGGED.match(n.id)
+            if m:
+                names.setdefault(m.group(1), set()).add(n.id)
+            else:
+                plain.add(n.id)
+        elif isinstance(n, ast.ExceptHandler) and n.name:
+            m = _TAGGED.match(n.name)
+            if m:
+                names.setdefault(m.group(1), set()).add(n.name)
+            else:
+                plain.add(n.name)
+        elif isinstance(n, (ast.FunctionDef, ast.ClassDef)) and n is not fn:
+            plain.add(n.name)
+        elif isinstance(n, (ast.Global, ast.Nonlocal)):
+            plain.update(n.names)
+    ren = dict((list(tagged)[0], base) for base, tagged in names.items()
+               if len(tagged) == 1 and base not in plain and base not in ("arg", "test", "item") and base.isidentifier())
+    if not ren:
+        return 0
+    for n in ast.walk(fn):
+        if isinstance(n, ast.Name) and n.id in ren:
+            n.id = ren[n.id]
+        elif isinstance(n, ast.ExceptHandler) and n.name in ren:
+            n.name = ren[n.name]
+    return len(ren)
+
+
+def _sink_flag_tests(fn):
+    """A boolean result flag tested right after the statement that sets it:
+
+        try:                                        try:
+            F = True; X = E1                            F = True; X = E1
+        except ...:                        ==>      except ...:
+            ...; F = False; X = E2                      ...; F = False; X = E2; return X
+        if not F: return X
+
+    F is a local bound only to True / False constants, read only by that one test; every path that completes the first
+    statement normally ends with a run of simple assignments containing `F = <const>`.  The `if` is decided per path: the
+    chosen branch is appended to the path, or nothing when it is empty.  Appending is exact at the end of an if-branch and of
+    an except handler or `else:` of a try without `finally` when the branch only binds locals to names / constants and
+    returns / breaks / continues (no `raise`, nothing that can raise); nothing is ever moved *into* a protected try body or a
+    `with` body (there the chosen branch must be empty)."""
+    done = 0
+
+    def simple_tail(stmts):
+        for st in stmts:
+            if isinstance(st, ast.Assign) and all(isinstance(t, ast.Name) for t in st.targets) and isinstance(st.value, (ast.Constant, ast.Name)):
+                continue
+            if isinstance(st, ast.Return) and (st.value is None or isinstance(st.value, (ast.Constant, ast.Name))):
+                continue
+            if isinstance(st, (ast.Break, ast.Continue, ast.Pass)):
+                continue
+            return False
+        return True
+
+    def terminal(st):
+        return isinstance(st, (ast.Return, ast.Raise, ast.Break, ast.Continue))
+
+    def tails(stmts, flag, protected):
+        """-> list of (block, const, protected) for the normally-completing ends of `stmts`, None when not decidable"""
+        if not stmts:
+            return None
+        last = stmts[-1]
+        if terminal(last):
+            return []
+        j = len(stmts)
+        while j > 0 and isinstance(stmts[j - 1], ast.Assign) and len(stmts[j - 1].targets) == 1 and isinstance(stmts[j - 1].targets[0], ast.Name):
+            st = stmts[j - 1]
+            if st.targets[0].id == flag:
+                if isinstance(st.value, ast.Constant) and isinstance(st.value.value, bool):
+                    return [(stmts, st.value.value, protected)]
+                return None
+            j -= 1
+        if isinstance(last, ast.If):
+            if not last.orelse:
+                return None
+            a, b = tails(last.body, flag, protected), tails(last.orelse, flag, protected)
+            return None if a is None or b is None else a + b
+        if isinstance(last, ast.Try):
+            if last.finalbody:
+                return None
+            out = tails(last.orelse, flag, protected) if last.orelse else tails(last.body, flag, True)
+            if out is None:
+                return None
+            for h in last.handlers:
+                t = tails(h.body, flag, protected)
+                if t is None:
+                    return None
+                out = out + t
+            return out
+        if isinstance(last, ast.With):
+            return tails(last.body, flag, True)
+        return None
+
+    changed = True
+    while changed:
+        changed = False
+        for holder in ast.walk(fn):
+            for fld in ("body", "orelse", "finalbody"):
+                blk = getattr(holder, fld, None)
+                if not isinstance(blk, list):
+                    continue
+                for i in range(len(blk) - 1):
+                    a, b = blk[i], blk[i + 1]
+                    if not (isinstance(b, ast.If) and isinstance(a, (ast.If, ast.Try, ast.With))):
+                        continue
+                    t = b.test
+                    neg = False
+                    if isinstance(t, ast.UnaryOp) and isinstance(t.op, ast.Not):
+                        t, neg = t.operand, True
+                    if not isinstance(t, ast.Name):
+                        continue
+                    flag = t.id
+                    loads = [n for n in ast.walk(fn) if isinstance(n, ast.Name) and n.id == flag and isinstance(n.ctx, ast.Load)]
+                    if len(loads) != 1:
+                        continue
+                    stores_ok = True
+                    for n in ast.walk(fn):
+                        if isinstance(n, ast.Assign) and any(isinstance(x, ast.Name) and x.id == flag for tg in n.targets for x in ast.walk(tg)):
+                            if not (len(n.targets) == 1 and isinstance(n.targets[0], ast.Name) and isinstance(n.value, ast.Constant) and isinstance(n.value.value, bool)):
+                                stores_ok = False
+                        elif isinstance(n, (ast.AugAssign, ast.AnnAssign, ast.For, ast.comprehension, ast.NamedExpr, ast.withitem, ast.ExceptHandler, ast.Global, ast.Nonlocal, ast.Delete)):
+                            for x in ast.walk(n.target if hasattr(n, "target") else n):
+                                if isinstance(x, ast.Name) and x.id == flag and isinstance(getattr(x, "ctx", None), (ast.Store, ast.Del)) and not isinstance(n, (ast.For, ast.ExceptHandler, ast.withitem)):
+                                    stores_ok = False
+                            if isinstance(n, ast.ExceptHandler) and n.name == flag:
+                                stores_ok = False
+                            if isinstance(n, (ast.Global, ast.Nonlocal)) and flag in n.names:
+                                stores_ok = False
+                    if not stores_ok or flag in [x.arg for x in fn.args.args]:
+                        continue
+                    tl = tails([a], flag, False)
+                    if not tl:
+                        continue
+                    plan = []
+                    ok = True
+                    for (tb, const, prot) in tl:
+                        chosen = b.body if (const != neg) else b.orelse
+                        if not chosen:
+                            plan.append((tb, []))
+                            continue
+                        if prot or not simple_tail(chosen):
+                            ok = False
+                            break
+                        plan.append((tb, chosen))
+                    if not ok:
+                        continue
+                    for tb, chosen in plan:
+                        tb.extend(copy.deepcopy(chosen))
+                    del blk[i + 1]
+                    done += 1
+                    changed = True
+                    break
+                if changed:
+                    break
+            if changed:
+                break
+    if done:
+        ast.fix_missing_locations(fn)
+    return done
+
+
 class _LiteralAttr(ast.NodeTransformer):
     """getattr(x, "name") -> x.name ; setattr(x, "name", v) as a statement -> x.name = v   (literal identifier that is not
     class-private: inside a class body `x.__n` would be mangled while the string is not)"""
@@ -1106,11 +1404,118 @@ class _LiteralAttr(ast.NodeTransformer):
         return node
 
 
+def _merge_conditional_defs(fn):
+    """A parameterless local function defined differently in the arms of an if / elif / else and called afterwards:
+
+        if A:   def f(): return X                 if A:   REST[f() := X]
+        elif B: def f(): return Y        ==>      elif B: REST[f() := Y]
+        else:   raise E                           else:   raise E
+        REST  (calls f())
+
+    Duplicating the continuation into the arms is exact; replacing `f()` by the returned expression is exact because f takes no
+    argument, is bound only by these definitions, is only ever called, and a closure reads its free variables when called."""
+    done = 0
+    for holder in ast.walk(fn):
+        for fld in ("body", "orelse", "finalbody"):
+            blk = getattr(holder, fld, None)
+            if not isinstance(blk, list):
+                continue
+            for i, st in enumerate(blk):
+                if not isinstance(st, ast.If) or i + 1 >= len(blk):
+                    continue
+                arms, cur, ok = [], st, True
+                while True:
+                    arms.append(cur.body)
+                    if len(cur.orelse) == 1 and isinstance(cur.orelse[0], ast.If):
+                        cur = cur.orelse[0]
+                        continue
+                    if not cur.orelse:
+                        ok = False
+                    else:
+                        arms.append(cur.orelse)
+                    break
+                if not ok:
+                    continue
+                name, defs = None, []
+                for arm in arms:
+                    if arm and isinstance(arm[-1], (ast.Raise, ast.Return)) and not any(isinstance(x, ast.FunctionDef) for s_ in arm for x in ast.walk(s_)):
+                        continue
+                    if len(arm) == 1 and isinstance(arm[0], ast.FunctionDef):
+                        d = arm[0]
+                        body = [b for b in d.body if not (isinstance(b, ast.Expr) and isinstance(b.value, ast.Constant))]
+                        a = d.args
+                        if not (a.args or a.vararg or a.kwarg or a.kwonlyargs or a.posonlyargs or d.decorator_list) and len(body) == 1 and \
+                                isinstance(body[0], ast.Return) and body[0].value is not None and (name is None or name == d.name) and \
+                                not any(isinstance(x, (ast.Yield, ast.YieldFrom, ast.Await, ast.Lambda, ast.NamedExpr)) for x in ast.walk(body[0])):
+                            name = d.name
+                            defs.append((arm, body[0].value))
+                            continue
+                    ok = False
+                    break
+                if not ok or not defs:
+                    continue
+                rest = blk[i + 1:]
+                if sum(1 for r in rest for _x in ast.walk(r) if isinstance(_x, ast.stmt)) > 15:
+                    continue
+                loads = [n for n in ast.walk(fn) if isinstance(n, ast.Name) and n.id == name and isinstance(n.ctx, ast.Load)]
+                calls = [n for r in rest for n in ast.walk(r) if isinstance(n, ast.Call) and isinstance(n.func, ast.Name) and n.func.id == name
+                         and not n.args and not n.keywords]
+                stores = [n for n in ast.walk(fn) if (isinstance(n, ast.Name) and n.id == name and isinstance(n.ctx, (ast.Store, ast.Del))) or
+                          (isinstance(n, ast.FunctionDef) and n.name == name) or (isinstance(n, ast.arg) and n.arg == name)]
+                if not calls or len(loads) != len(calls) or len(stores) != len(defs):
+                    continue
+                # the free variables of the returned expressions must not be rebound in REST before the call: keep it simple and
+                # require that REST does not store any of them at all
+                free = set(x.id for (_a, e) in defs for x in ast.walk(e) if isinstance(x, ast.Name))
+                if free & _names_stored(rest):
+                    continue
+                for (arm, e) in defs:
+                    new_rest = [copy.deepcopy(r) for r in rest]
+
+                    class _R(ast.NodeTransformer):
+                        def visit_Call(self_, node):
+                            self_.generic_visit(node)
+                            if isinstance(node.func, ast.Name) and node.func.id == name and not node.args and not node.keywords:
+                                return ast.copy_location(copy.deepcopy(e), node)
+                            return node
+                    arm[:] = [_R().visit(r) for r in new_rest]
+                del blk[i + 1:]
+                done += 1
+                break
+    if done:
+        ast.fix_missing_locations(fn)
+    return done
+
+
+_BOOL_METHODS = ("is_alive", "isAlive", "is_set", "isSet", "empty", "full", "locked")
+
+
+class _IterSentinel(ast.NodeTransformer):
+    """`for _ in iter(x.is_alive, False): BODY` -> `while x.is_alive(): BODY` (the two-argument iter calls the bound method before
+    every round and stops when the result equals False; for a method that returns a bool that is the while loop), the loop
+    variable being unused"""
+
+    def visit_For(self, node):
+        self.generic_visit(node)
+        it = node.iter
+        if isinstance(it, ast.Call) and isinstance(it.func, ast.Name) and it.func.id == "iter" and len(it.args) == 2 and not it.keywords and \
+                isinstance(it.args[1], ast.Constant) and it.args[1].value is False and isinstance(it.args[0], ast.Attribute) and \
+                it.args[0].attr in _BOOL_METHODS and isinstance(node.target, ast.Name):
+            used = [n for st in node.body + node.orelse for n in ast.walk(st) if isinstance(n, ast.Name) and n.id == node.target.id]
+            if not used:
+                call = ast.Call(func=it.args[0], args=[], keywords=[])
+                return ast.fix_missing_locations(ast.copy_location(ast.While(test=call, body=node.body, orelse=node.orelse), node))
+        return node
+
+
 def deselect_module(tree):
     """Rewrite calls through a (callable, arguments) pair chosen by an if/else into the two direct calls (in place)."""
     n = 0
     counter = [0]
     _CallLambda().visit(tree)
+    _IterSentinel().visit(tree)
+    for fn_ in [x for x in ast.walk(tree) if isinstance(x, ast.FunctionDef)]:
+        _merge_conditional_defs(fn_)
     _LiteralAttr().visit(tree)
     ast.fix_missing_locations(tree)
     _ReturnIfExp().visit(tree)
@@ -1225,8 +1630,61 @@ def import_foreign_helpers(trees):
     return done
 
 
+def _hoist_static_methods(tree, known):
+    """`K.m(...)` where K is a new top-level class and m one of its static methods -> `_K_m(...)`, a module-level copy of m (a
+    namespace class used as a bag of helpers); the class itself stays for whatever else refers to it."""
+    done = 0
+    classes = {}
+    for st in tree.body:
+        if isinstance(st, ast.ClassDef) and not any(k.startswith(st.name + ".") or k == st.name for k in known):
+            ms = dict((m.name, m) for m in st.body if isinstance(m, ast.FunctionDef) and
+                      [ast.unparse(d) for d in m.decorator_list] == ["staticmethod"])
+            if ms:
+                classes[st.name] = ms
+    if not classes:
+        return 0
+    taken = set(n.id for n in ast.walk(tree) if isinstance(n, ast.Name)) | set(n.name for n in ast.walk(tree) if isinstance(n, (ast.FunctionDef, ast.ClassDef)))
+    made = {}
+    again = True
+    while again:
+        again = False
+        for n in list(ast.walk(tree)):
+            if isinstance(n, ast.Call) and isinstance(n.func, ast.Attribute) and isinstance(n.func.value, ast.Name) and \
+                    n.func.value.id in classes and n.func.attr in classes[n.func.value.id]:
+                key = (n.func.value.id, n.func.attr)
+                nm = "_%s_%s" % (key[0].strip("_"), key[1].strip("_"))
+                if key not in made:
+                    if nm in taken:
+                        continue
+                    cp = copy.deepcopy(classes[key[0]][key[1]])
+                    cp.name = nm
+                    cp.decorator_list = []
+                    made[key] = cp
+                    tree.body.append(cp)          # (its own calls of static methods are rewritten on the next round)
+                    again = True
+                n.func = ast.copy_location(ast.Name(id=nm, ctx=ast.Load()), n.func)
+                done += 1
+    if made:
+        # the originals no expression refers to any more are dead definitions
+        for st in tree.body:
+            if isinstance(st, ast.ClassDef) and st.name in classes:
+                refs = set(n.attr for n in ast.walk(tree) if isinstance(n, ast.Attribute) and isinstance(n.value, ast.Name) and
+                           n.value.id in (st.name, "self", "cls"))
+                dyn = any(isinstance(n, ast.Call) and isinstance(n.func, ast.Name) and n.func.id in ("getattr", "vars", "dir") and n.args and
+                          isinstance(n.args[0], ast.Name) and n.args[0].id == st.name for n in ast.walk(tree))
+                inst = any(isinstance(n, ast.Name) and n.id == st.name and isinstance(n.ctx, ast.Load) for n in ast.walk(tree)
+                           if not any(isinstance(p_, ast.Attribute) and p_.value is n for p_ in ast.walk(tree)))
+                if inst:
+                    continue        # the class object itself is used as a value (instantiated, passed on): keep everything
+                keep = [m for m in st.body if not (isinstance(m, ast.FunctionDef) and (st.name, m.name) in made and m.name not in refs and not dyn)]
+                st.body = keep or [ast.Pass()]
+        ast.fix_missing_locations(tree)
+    return done
+
+
 def inline_module(module_name, tree):
     """Expand new same-module helpers in `tree` (in place).  -> dict(expanded=..., removed=...) for evidence."""
+    _hoist_static_methods(tree, known_functions().get(module_name, set()))
     deselect_module(tree)
     if propagate_aliases(tree):
         _ReturnIfExp().visit(tree)          # a display substituted for its alias may now be unrolled
@@ -1236,10 +1694,13 @@ def inline_module(module_name, tree):
     did = inl.run()
     if did:
         # the expanded bodies may contain the idioms the earlier passes normalise (aliases, displays spread into calls, ...)
+        _IterSentinel().visit(tree)
         _ReturnIfExp().visit(tree)
         _LiteralAttr().visit(tree)
         for fn_ in [n for n in ast.walk(tree) if isinstance(n, ast.FunctionDef)]:
             _sink_flags(fn_)
+            _sink_flag_tests(fn_)
+            _untag_locals(fn_)
         ast.fix_missing_locations(tree)
         counter = [1000]
         for st in ast.walk(tree):
